@@ -203,9 +203,9 @@ KANI = [dict(package="datafusion-execution", module="execution/cache_manager.rs"
     dict(name="c40_file_metadata_entry_valid_iff_size_and_mtime_unchanged", complete=False, bound="sizes full u64; timestamps from a 4 s x 2 ns window (chrono calendar arithmetic)",
          what="CachedFileMetadataEntry::is_valid_for on forged entries: valid <=> size and last_modified both unchanged"),
 ])]
-TRUSTED = ["Verus 0.2026.09.13 + bundled Z3", "ASSUMED contract of LruQueue::{get,peek,put,pop,remove,clear} over a recency-ordered sequence view (prelude.rs); checked against the real implementation only by a bounded Kani harness",
+TRUSTED = ["Verus 0.2026.09.13 + bundled Z3", "ASSUMED contract of LruQueue::{get,peek,put,pop,remove,clear} over a recency-ordered sequence view (prelude.rs); NOT checked against lru_queue.rs (CBMC does not finish even a concrete history on the real LruQueue, DESIGN 9.8)",
            "CacheKey/CacheValue::size are pure functions of the value; clone returns an equal value; Eq on keys is spec equality", "Instant/Duration modelled as integers (total order)",
            "rewrites R4 (let-chain), R5 (log/debug_assert -> proved assert(false)), R6, R8 (hit counters dropped), R10 (lock elision for update_cache_limit), R13 (ttl closure -> assumed expiry_of)"]
 ASSUMPTIONS = ["memory_limit <= usize::MAX/2 and key size + value size <= usize::MAX (put adds the new size before subtracting the old one)", "hit counters are not verified", "sequential semantics inside the cache mutex"]
-NOT_COVERED = ["file size / mtime validity of cached metadata (is_valid_for) and table-drop invalidation as observed by queries", "drop_table_entries / list_entries (iterator adapters)", "the LruQueue implementation itself beyond the bounded check"]
+NOT_COVERED = ["file size / mtime validity of cached metadata (is_valid_for) and table-drop invalidation as observed by queries", "drop_table_entries / list_entries (iterator adapters)", "the LruQueue implementation itself (Arc<Mutex>/Weak linked list over a std HashMap): outside both verifiers"]
 EXPLANATION = ""
